@@ -300,3 +300,15 @@ func init() {
 		return Tuple{it.mkStr(path.Clean(s)), Iface{}}
 	})
 }
+
+func init() {
+	// writes to descriptors that are not files of the in-memory table (stdout, stderr, log sinks) are discarded
+	reg("(*os.File).Write", func(fr *frame, args []Value) Value {
+		return Tuple{fr.it.mkInt(len(args[1].([]Value))), Iface{}}
+	})
+	reg("(*os.File).WriteString", func(fr *frame, args []Value) Value {
+		return Tuple{fr.it.mkInt(len(args[1].(Str).b)), Iface{}}
+	})
+	reg("(*os.File).Sync", func(fr *frame, args []Value) Value { return Iface{} })
+	reg("(*os.File).Fd", func(fr *frame, args []Value) Value { return fr.it.tt.Const(64, 3) })
+}
